@@ -15,6 +15,15 @@ def run(c):
               "helpers, frees by post-return, untouched import arguments, ledger balance, borrow drops, resource intrinsic / "
               "destructor counts; non-trivial = the call moved at least one heap buffer or handle; distinct by (world, "
               "configuration, function, values)")
+    # translator: the destructor's export-name format string, regenerated from the working tree
+    import subprocess, sys, os
+    from vlib import VERIF
+    t = subprocess.run([sys.executable, os.path.join(VERIF, "tools", "gen_cdtor.py")], stdout=subprocess.PIPE, stderr=subprocess.PIPE, text=True)
+    c.checker_cmds.append("tools/gen_cdtor.py")
+    if t.returncode != 0:
+        c.broken.append(("translator gen_cdtor (the [dtor] export attribute of type_resource no longer has the expected shape)", t.stderr[-800:]))
+    else:
+        c.cov["translator"] = json.loads(t.stdout.strip().split("\n")[-1])
     ok = c.lake_build(["Witverif.Props.C11"])
     if ok: c.audit("Witverif.Props.C11")
     if c.tier == "thorough" and ok: c.leanchecker("Witverif.Props.C11")
@@ -26,7 +35,7 @@ def run(c):
     # ---- destructor export names: generated source vs model vs Resolve::wasm_export_name
     items = [(w, r) for w in live for r in w.gen["resources"] if r["dir"] == "export"]
     reqs = [f"dtor|{cc.cn.hx(r['iface'])}|{cc.cn.hx(r['name'])}" for w, r in items]
-    ans = run_lines([chost], reqs, timeout=300) if chost and reqs else []
+    ans = cc.cn.retry_timeouts([chost], reqs, run_lines([chost], reqs, timeout=300)) if chost and reqs else []
     impl, model = [], []
     for (w, r), a in zip(items, ans):
         real = w.dtor_exports.get(r["name"])
